@@ -208,12 +208,36 @@ pub fn c09_loose_case(bytes: &[u8], stats: &mut Stats, counting: bool, cfg: &Gen
         };
         args.insert(name.to_string(), v);
     }
+    // sometimes one argument is replaced by a value of another kind or nesting: argument validation decides, and
+    // whatever it accepts must execute without panicking
+    let mut edited = false;
+    if !args.is_empty() && ac.chance(90) {
+        let names: Vec<String> = args.keys().cloned().collect();
+        let name = names[ac.below(names.len())].clone();
+        let pools: [crate::values::Value; 10] = [
+            crate::values::Value::int(2),
+            crate::values::Value::uint(u64::MAX as i128),
+            crate::values::Value::Float(0.5),
+            crate::values::Value::str("a"),
+            crate::values::Value::Bool(true),
+            crate::values::Value::Null,
+            crate::values::Value::List(vec![]),
+            crate::values::Value::List(vec![crate::values::Value::int(1), crate::values::Value::Null]),
+            crate::values::Value::List(vec![crate::values::Value::List(vec![])]),
+            crate::values::Value::List(vec![crate::values::Value::str("a"), crate::values::Value::int(1)]),
+        ];
+        args.insert(name, pools[ac.below(pools.len())].clone());
+        edited = true;
+    }
     let ill_typed = !case.ann.errors.is_empty();
     let adapter = Arc::new(GraphAdapter::new(case.world.clone()));
     let limit = if drop_after == 0 { ROW_LIMIT * 2 } else { drop_after };
     let out = engine::execute(adapter, iq.clone(), engine::args_to_engine(&args), limit);
     if counting {
         stats.label("loose:frontend-accepted");
+        if edited && matches!(out, ExecOutcome::Rows(_)) {
+            stats.label("loose:edited-argument-accepted-by-validation");
+        }
         if ill_typed {
             stats.label("loose:accepted-although-the-harness-annotator-objects");
         }
@@ -224,7 +248,7 @@ pub fn c09_loose_case(bytes: &[u8], stats: &mut Stats, counting: bool, cfg: &Gen
     match out {
         ExecOutcome::Budget => return Verdict::Discard("too-much-work".into()),
         ExecOutcome::Rows(_) => Verdict::Pass,
-        ExecOutcome::ArgError(e) => Verdict::Discard(format!("args-rejected(C12):{}", first_line(&e).chars().take(40).collect::<String>())),
+        ExecOutcome::ArgError(_) => Verdict::Discard("args-rejected(C12)".into()),
         ExecOutcome::Panic(p, _) => {
             if p.in_harness() {
                 return Verdict::Discard("adapter-misuse(C21)".into());
@@ -321,8 +345,11 @@ pub fn render_world_case(bytes: &[u8], cfg: &GenConfig) -> serde_json::Value {
 
 pub fn c01(ctx: &CheckCtx) -> i32 {
     let cfg = default_gen_config();
+    let mut fold_cfg = default_gen_config();
+    fold_cfg.query.fold_bias = true;
+    fold_cfg.query.quiet_folds = true;
     if ctx.replay.is_some() {
-        return replay_with(ctx, &|_sub, bytes| c01_case(bytes, &mut Stats::default(), false, &cfg));
+        return replay_with(ctx, &|sub, bytes| c01_case(bytes, &mut Stats::default(), false, if sub == "c01-folds" { &fold_cfg } else { &cfg }));
     }
     let mut report = Report::new(
         ctx,
@@ -338,6 +365,11 @@ pub fn c01(ctx: &CheckCtx) -> i32 {
     let cases = ctx.cases(250_000, 5_000_000);
     let res = search(ctx, "c01", cases, WORLD_MIN_LEN, WORLD_MAX_LEN, |b, s, counting| c01_case(b, s, counting, &cfg));
     report.absorb(res, &|b| render_world_case(b, &cfg));
+    // second search: fold-biased worlds in which some folds are observed by nothing (the shape that is eligible for the
+    // engine's early termination), one to three filters on a fold's count
+    let cases = ctx.cases(150_000, 3_000_000);
+    let res = search(ctx, "c01-folds", cases, WORLD_MIN_LEN, WORLD_MAX_LEN, |b, s, counting| c01_case(b, s, counting, &fold_cfg));
+    report.absorb(res, &|b| render_world_case(b, &fold_cfg));
     report.extra.insert("generator_bounds".into(), json!({"max_query_vertices": cfg.query.max_vertices, "max_data_vertices": cfg.data.max_vertices}));
     report.finish()
 }
